@@ -298,7 +298,7 @@ func translationFailover(engine string, ts [2]string) map[string]any {
 			b.Close()
 		}
 	}()
-	s, err := stack.Start(stack.Opts{Engine: engine, Balancer: "priority", EPs: eps, Mutate: func(cfg *config.Config) {
+	s, err := stack.Start(stack.Opts{Vary: stack.VaryFor("c04.xroute", engine, ts), Engine: engine, Balancer: "priority", EPs: eps, Mutate: func(cfg *config.Config) {
 		cfg.Translators.Anthropic.Enabled = true
 		cfg.Translators.Anthropic.PassthroughEnabled = false
 	}})
@@ -391,6 +391,7 @@ func main() {
 		if i%4 == 1 {
 			sc.StreamBufferSize = vlib.Pick(r, []int{1024, 16384, 65536})
 		}
+		sc.Vary = stack.VaryFor("c04", i)
 	}
 	out := make([]*scen.Obs, len(scs))
 	scen.ParallelMap(len(scs), 16, func(i int) { out[i] = scen.Run(scs[i]) })
